@@ -115,6 +115,27 @@ method_reorder_encode (PyObject *self, PyObject *args)
         PyErr_SetString(PyExc_ValueError, "Invalid input type");
         return NULL;
     }
+    /* The encoder can only represent 9-bit sign-magnitude weights */
+    for (int oz = 0; oz < ofm_depth; oz++)
+    {
+        for (int ky = 0; ky < kernel_height; ky++)
+        {
+            for (int kx = 0; kx < kernel_width; kx++)
+            {
+                for (int iz = 0; iz < ifm_depth; iz++)
+                {
+                    int16_t value = brick_weights[oz * brick_strides[0] + ky * brick_strides[1] +
+                                                  kx * brick_strides[2] + iz * brick_strides[3]];
+                    if (value < -255 || value > 255)
+                    {
+                        PyErr_SetString(PyExc_ValueError, "Input value out of bounds");
+                        Py_DECREF(input_ndarray_object);
+                        return NULL;
+                    }
+                }
+            }
+        }
+    }
     uint8_t* output_buffer = NULL;
     int64_t padded_length;
 
